@@ -20,7 +20,7 @@ def main():
     a = sys.argv[1:]
     src = a[0].rstrip('/')
     mid = os.path.basename(src)
-    checks = None; seeds = ['1', '2']; thorough = False; confirm = True; suite = True; sens = True
+    checks = None; seeds = ['1', '2']; thorough = False; confirm = True; suite = True; sens = True; stages = False
     i = 1
     while i < len(a):
         if a[i] == '--checks': checks = a[i+1].split(','); i += 2
@@ -29,6 +29,7 @@ def main():
         elif a[i] == '--no-confirm': confirm = False; i += 1
         elif a[i] == '--no-suite': suite = False; i += 1
         elif a[i] == '--no-sens': sens = False; i += 1
+        elif a[i] == '--stages': stages = True; i += 1
         else: i += 1
     dst = f'{V}/seeded/{mid}'
     os.makedirs(dst, exist_ok=True)
@@ -95,13 +96,10 @@ def main():
             conf['suite_retry'] = retry
         sh(['git', '-C', '/repo', 'worktree', 'remove', '--force', wt])
         shutil.rmtree(wt, ignore_errors=True)
-        try:
-            latest = json.load(open(os.path.join(dst, 'meta.json')))
-            if 'author' in latest: meta = latest
-        except Exception:
-            pass
-        meta['confirm'] = conf
-        json.dump(meta, open(os.path.join(dst, 'meta.json'), 'w'), indent=1)
+        json.dump(conf, open(os.path.join(dst, 'confirm.json'), 'w'), indent=1)
+        if sens:
+            meta['confirm'] = conf
+            json.dump(meta, open(os.path.join(dst, 'meta.json'), 'w'), indent=1)
         print(mid, 'confirm:', json.dumps(conf))
     # ---------------- B. sensitivity
     if not sens:
@@ -124,6 +122,7 @@ def main():
                     break
                 t0 = time.time()
                 env = dict(os.environ); env['TV_NO_EVIDENCE_CLOBBER'] = '1'
+                if not stages: env['TV_SKIP_STAGES'] = '1'
                 rc, out = sh([f'{V}/check', c, '--tier', tier, '--seed', s], cwd=V, timeout=7200, env=env)
                 viol = [l for l in out.splitlines() if l.startswith('VIOLATION property=')]
                 sigs = [re.sub(r'^\s*unexplained signature x\d+: ', '', l) for l in out.splitlines() if 'unexplained signature' in l]
